@@ -64,7 +64,7 @@ def mutate(rng, kind_hint=None):
     ext = EXTS[lang]
     kinds = ["empty", "whitespace", "random_bytes", "invalid_utf8", "bom_only", "nul", "lone_cr", "mixed_eol", "truncate", "truncate", "token_delete", "token_dup",
              "truncate_line", "truncate_line", "bracket", "byte_damage", "deep_nesting", "deep_nesting_small", "long_line", "long_chain", "huge_int", "surrogate", "long_directive", "unknown_ext",
-             "shebang", "long_identifier", "only_comment", "unterminated_string", "broken_import", "broken_import"]
+             "shebang", "long_identifier", "only_comment", "unterminated_string", "broken_import", "broken_import", "many_findings_line"]
     kind = kind_hint or rng.choice(kinds)
     name = f"src/bad_{kind}{ext}"
     LAST_BASE[0] = data if kind in TAIL_KINDS else None
@@ -139,6 +139,17 @@ def mutate(rng, kind_hint=None):
         else:
             text = base + "\nconst long = \"" + "x" * n + "\";\n"
         return name, text.encode("utf-8"), f"{kind}:{n}"
+    if kind == "many_findings_line":
+        # one line with tens of thousands of findings: whatever a rule does per finding must not be proportional to the file
+        n = 30000
+        elems = ",".join(["1234"] * n)
+        if lang == "py":
+            text = base + f"\nMANY = compute([{elems}])\n"
+        elif lang == "rs":
+            text = base + f"\nfn many() -> Vec<i32> {{ vec_of([{elems}]) }}\n"
+        else:
+            text = base + f"\nvar many = compute([{elems}]);\n"
+        return f"src/bad_{kind}_{n}{ext}", text.encode("utf-8"), f"{kind}:{n}"
     if kind == "long_chain":
         n = rng.choice([200, 600, 600, 900, 900, 3000])
         expr = " + ".join(["a"] * n)
@@ -311,7 +322,7 @@ def run(tier: str, seed: int, st: core.ProofStatus) -> core.Result:
     cases = []
     kinds_cycle = ["empty", "whitespace", "random_bytes", "invalid_utf8", "bom_only", "nul", "lone_cr", "mixed_eol", "truncate", "token_delete", "token_dup", "bracket", "byte_damage",
                    "deep_nesting", "deep_nesting_small", "long_line", "long_chain", "huge_int", "surrogate", "long_directive", "unknown_ext", "shebang", "long_identifier",
-                   "only_comment", "unterminated_string", "broken_import", "long_chain", "long_chain", "deep_nesting", "truncate", "truncate_line", "truncate_line", "truncate_line", "long_directive", "truncate_line", "truncate_line"]
+                   "only_comment", "unterminated_string", "broken_import", "long_chain", "long_chain", "deep_nesting", "many_findings_line", "truncate", "truncate_line", "truncate_line", "truncate_line", "long_directive", "truncate_line", "truncate_line"]
     for i in range(n):
         healthy = healthy_project(rng)
         if i < 3 or (i >= len(kinds_cycle) and rng.random() < 0.05):
@@ -340,7 +351,9 @@ def run(tier: str, seed: int, st: core.ProofStatus) -> core.Result:
             name, data, kind = mutate(rng, kinds_cycle[i - 5] if 0 <= i - 5 < len(kinds_cycle) else None)       # every kind at least once per run
             bad_files = [(name, data)]
         cmds = rng.sample(COMMANDS, 2)
-        if len(bad_files) == 1 and kind.split(":")[0] in TAIL_KINDS:
+        if kind.startswith("many_findings_line"):
+            cmds = ["magic-numbers"]       # the command whose rule has the findings; one run is enough to see whether it finishes
+        elif len(bad_files) == 1 and kind.split(":")[0] in TAIL_KINDS:
             cmds = sorted(set(cmds) | {"magic-numbers", "nesting"})      # rules that have findings in the ordinary part of most generated files
         base_only = [(bad_files[0][0], LAST_BASE[0])] if len(bad_files) == 1 and kind.split(":")[0] in TAIL_KINDS and LAST_BASE[0] is not None else None
         LAST_BASE[0] = None
